@@ -522,6 +522,12 @@ def runOp (op : String) (args : List String) : String :=
   | "codec.pack", typ :: vals => codecPack typ vals
   | "codec.unpack", [typ, rd] => codecUnpack typ rd
   | "len.rr", typ :: owner :: toks => lenRROp typ owner toks
+  | "msg.packc", [m] =>
+    match unhex m with
+    | some msg => (match MU.unpackMsg msg with
+      | some r => if r.err then "err" else (match MU.packMsgCOf r with | some w => hex w | none => "E")
+      | none => "hdr-err")
+    | none => "bad-op"
   | "msg.repack", [m] =>
     match unhex m with
     | some msg => (match MU.unpackMsg msg with
